@@ -306,12 +306,53 @@ def _strip_elem(t, elem):
     return t == elem
 
 
+def array_of_decoded(prog, fn, pv, vl, agg, name):
+    """field `name` of the decoded value is `src.try_as_array()?` with every element, in order, handed to one decoder whose
+    failure fails the whole decode - `src.try_as_array_then_convert(D)?` or the loop / iterator chain it stands for.
+    Returns (src term, type decoded by D, 'call' | 'expanded') or None"""
+    t = agg.term(name)
+    if t[0] == "tryok" and is_call(t[1], TRY_ARRAY_CONVERT) and len(t[1][2]) == 2:
+        return t[1][2][0], _converter_type(prog, t[1][2][1]), "call"
+    if agg._terms is not None or name not in agg.fields:
+        return None
+    from .seq import Seq, normalize, X
+    op, bb, idx = agg.fields[name]
+    try:
+        s = normalize(Seq(fn, pv, vl).of_operand(op, bb, idx))
+    except Exception:
+        return None
+    if not (s and s[0] == "map" and s[2][0] == "elems" and s[2][2] == 0 and s[2][3] is None):
+        return None
+    coll, F = s[2][1], s[1]
+    if not (coll[0] == "tryok" and is_call(coll[1], TRY_ARRAY) and len(coll[1][2]) == 1):
+        return None
+    if F[0] == "field" and F[2] == "0" and F[1][0] == "variant" and F[1][2] == "Ok":
+        F = ("tryok", F[1][1])          # the Ok payload taken by an explicit match whose Err arm fails (Seq checked that)
+    if not (F[0] == "tryok" and is_call(F[1]) and (F[1][1].endswith("::from_cbor_value") or F[1][1].endswith("::from_cbor_value_depth"))
+            and F[1][2] and F[1][2][0] == X):
+        return None
+    return coll[1][2][0], type_of_decoder(_full_self(fn, F[1])), "expanded"
+
+
 def slot_kind(prog, fn, pv, vl, agg, name):
     """descriptor of how field `name` of the decoded struct is obtained"""
     t = agg.term(name)
+    from . import combinators as _cb
+    if _cb.is_combinator(t):
+        # `(..).then(|| ..).transpose()?.unwrap_or_default()`: the choice the combinator chain stands for
+        cases = _cb.reduce(prog, t)
+        if len(cases) >= 2 and not (len(cases) == 1 and cases[0][1] == t):
+            from .prov import mk_phi
+            t = mk_phi([v for _, v in cases])
     e = elem_of(t, fn, vl)
     d = {"field": name, "slot": None, "kind": "?", "term": show(t)[:200]}
     if e is None:
+        # a list built by a loop / iterator chain over `slot.try_as_array()?` (try_as_array_then_convert written out)
+        ad = array_of_decoded(prog, fn, pv, vl, agg, name)
+        e2 = elem_of(ad[0], fn, vl) if ad else None
+        if ad and e2 is not None and ad[0] == e2[2]:
+            d.update({"slot": e2[0], "site_bb": e2[1], "kind": "array<%s>" % ad[1], "expanded": ad[2] == "expanded"})
+            return d
         d["kind"] = "no-single-element"
         return d
     orig, site_bb, elem = e
@@ -393,7 +434,8 @@ def slot_kind(prog, fn, pv, vl, agg, name):
             dflt = without[0][0]
             inner = None
             popped = ("field", ("variant", elem, "Some"), "0")     # `match tail.pop() { Some(v) => .., None => default }`
-            if x[0] == "tryok" and is_call(x[1], TRY_ARRAY_CONVERT) and x[1][2][0] in (elem, popped) and is_call(dflt, VEC_NEW):
+            if x[0] == "tryok" and is_call(x[1], TRY_ARRAY_CONVERT) and x[1][2][0] in (elem, popped) \
+                    and (is_call(dflt, VEC_NEW) or is_call(dflt, "core::default::Default::default")):
                 inner = "array<%s>" % _converter_type(prog, x[1][2][1])
             if x[0] == "aggr" and x[2] == "Some" and x[3][0][1][0] == "tryok" and is_call(x[3][0][1][1], TRY_BYTES) \
                     and x[3][0][1][1][2][0] in (elem, popped) \
